@@ -17,7 +17,7 @@ var vRaceInputs = []string{
 	`123456789012345678901234567890e-5`, `4.9e-324`, ` true `, `null`, `[[[[[[1]]]]]]`,
 }
 
-func vRaceOne(in string) string {
+func vRaceOne(in string, own *Buffer) string {
 	d := []byte(in)
 	out := ""
 	v, p, err := ReadValue(d)
@@ -36,8 +36,7 @@ func vRaceOne(in string) string {
 	var ds string
 	p8, err8 := DecodeString(d, &ds, nil)
 	out += fmt.Sprintf("%q %d %v|", ds, p8, err8 == nil)
-	var own Buffer
-	p9, err9 := SkipValueFast(d, &own)
+	p9, err9 := SkipValueFast(d, own)
 	p10, err10 := SkipValueFast(d, nil)
 	out += fmt.Sprintf("%d %v %d %v|", p9, err9 == nil, p10, err10 == nil)
 	tt, p7, _ := NextTokenType(d)
@@ -48,7 +47,7 @@ func vRaceOne(in string) string {
 func vH_C18_race() {
 	want := make([]string, len(vRaceInputs))
 	for i, in := range vRaceInputs {
-		want[i] = vRaceOne(in)
+		want[i] = vRaceOne(in, &Buffer{})
 	}
 	var wg sync.WaitGroup
 	var mu sync.Mutex
@@ -57,9 +56,10 @@ func vH_C18_race() {
 		wg.Add(1)
 		go func(g int) {
 			defer wg.Done()
+			var own Buffer // each goroutine keeps re-using its private Buffer, as the README recommends
 			for it := 0; it < 300; it++ {
 				i := (it + g) % len(vRaceInputs)
-				if vRaceOne(vRaceInputs[i]) != want[i] {
+				if vRaceOne(vRaceInputs[i], &own) != want[i] {
 					mu.Lock()
 					bad++
 					mu.Unlock()
